@@ -2,7 +2,7 @@
    A case is (chunks, observed); [observed] is what the implementation returned for
    concatStreamReader-style concatenation of the chunks, canonicalised by the harness:
    OVal v | OErr | OPanic.  Error messages are not compared (class only). *)
-From Eino Require Import Base.Util Model.Concat Model.ConcatMsg.
+From Eino Require Import Base.Util Model.Concat Model.ConcatMsg Model.ConcatOrder.
 
 Inductive obs : Type := OVal (v : cval) | OErr | OPanic.
 
@@ -107,10 +107,22 @@ Inductive ccase : Type :=
 | CaseMsg (api : N) (chunks : list (option msg)) (o : mobs)
 | CaseMsgList (chunks : list (list (option msg))) (o : lobs).
 
+(* the same entry points with Go's map iteration made explicit (Model/ConcatOrder.v) and
+   set to an order that differs from the one Model/Concat.v and Model/ConcatMsg.v use:
+   keys reversed at every nesting level, tool-call indexes visited in descending order *)
+Definition run_msg_o (api : N) (chunks : list (option msg)) : res (option msg) :=
+  match chunks with
+  | [m] => if N.eqb api 0 then res_map Some (concat_msgs_o (@rev Z) (rev_sched 4) chunks) else Ok m
+  | [] => if N.eqb api 0 then res_map Some (concat_msgs_o (@rev Z) (rev_sched 4) chunks) else Err E_EMPTY
+  | _ => res_map Some (concat_msgs_o (@rev Z) (rev_sched 4) chunks)
+  end.
+
 Definition bad (c : ccase) : bool :=
   match c with
-  | CaseGen chunks o => negb (obs_eqb (obs_of (concat_stream chunks)) o)
-  | CaseMsg api chunks o => negb (mobs_eqb (mobs_of (run_msg api chunks)) o)
+  | CaseGen chunks o =>
+      negb (obs_eqb (obs_of (concat_stream chunks)) o) || negb (obs_eqb (obs_of (concat_stream_o (rev_sched 4) chunks)) o)
+  | CaseMsg api chunks o =>
+      negb (mobs_eqb (mobs_of (run_msg api chunks)) o) || negb (mobs_eqb (mobs_of (run_msg_o api chunks)) o)
   | CaseMsgList chunks o => negb (lobs_eqb (lobs_of (msglist_stream chunks)) o)
   end.
 Definition mismatches (cs : list ccase) : list nat := mismatches_from bad 0 cs.
